@@ -107,10 +107,11 @@ func recoverPort(lx *loxb.Lox, p *cfgm.Plain, w []int) (res portResult) {
 						break
 					}
 					if a.Type == lr1.ActionReduce {
-						state = t.Transitions(state).Get(a.Prods[0].Rule)
-						if state == nil {
-							res.aborted = true
-							return false
+						// the runtime does `state, _ = _Find(_goto, state, rule)`: a missing entry yields state 0
+						if nx := loxb.GotoOf(t, state, a.Prods[0].Rule); nx != nil {
+							state = nx
+						} else {
+							state = t.States[0]
 						}
 						continue
 					}
@@ -183,7 +184,7 @@ func recoverPort(lx *loxb.Lox, p *cfgm.Plain, w []int) (res portResult) {
 				}
 			}
 			stack = stack[:len(stack)-n]
-			next := t.Transitions(stack[len(stack)-1].st).Get(pr.Rule)
+			next := loxb.GotoOf(t, stack[len(stack)-1].st, pr.Rule)
 			if next == nil {
 				res.aborted = true
 				return
